@@ -44,6 +44,23 @@ TABLE = {
              "replay divergence in their own threaded replays where those exist)",
         design_ref="6/C03, 3.2, 4.5, 9.1, 9.8",
         technique="explicit TLA+ weak-memory model checked by TLC, memory orders extracted from the executing code (conformance binding by schedule replay)"),
+    "C04": dict(
+        claimed=True,
+        text="spec/Async/Async.tla is a sequential stack-machine model of cocls::async<T> at the grain of the code: frame states, the handle held "
+             "by the async object, async_promise::_future, the ready deque and coroutine mode, and final_awaiter::await_suspend as resolve / "
+             "destroy / symmetric-transfer actions. TLC checks exhaustively that, for every generated program (8 native start modes incl. claimed "
+             "promise and never-started, 8 in-coroutine start modes, value/exception, synchronous or suspended completion, int and void, co_await "
+             "nesting up to depth 3) and for every timing, order and kind of resolution of the awaited futures, the body runs exactly once, the "
+             "result reaches exactly the bound party (nobody when detached), frame, arguments and locals are destroyed exactly once with zero "
+             "allocation balance at the end, unstarted coroutines never run, and start(promise) on a claimed promise leaves the coroutine "
+             "unstarted. Every edge of every state graph is replayed on the real headers by scripted coroutines with counted guard arguments and "
+             "locals (frames through operator new or a counting with_allocator storage, promises resolved on the same or a fresh thread, join() "
+             "blocking a controlled thread); after each native call counters, _h, _future, futures, observed results, return values, event order "
+             "and live frames are compared with the specification.",
+        note="bounds: <=4 coroutines per program, <=3 external futures, 343 programs / 5.1e4 states quick, 1615 programs / 2.4e5 states thorough with "
+             "ASan+UBSan; full edge cover; pool.run(async) replayed as its body on a fresh thread (pool queueing/stopping is C11); TCB: TLC, the "
+             "script interpreter and probes in harness/async_replay.cpp, vsched for the blocking join, GCC's coroutine lowering",
+        design_ref="6/C04, 3.12"),
     "C05": dict(
         claimed=True,
         text="TLC checks spec/CoroSched/CoroSched.tla, a sequential stack machine of one thread (install_queue_and_call frame with its loop "
@@ -129,6 +146,40 @@ TABLE = {
              "ASan/UBSan) plus TLC-only runs (2.0M states); int values, lvalue arguments, <=2 accesses after an exception, two thread release orders "
              "only; TCB: TLC, vsched, the replayer's projection and private-member access, the linear path cover in tools/checks/c13.py",
         design_ref="6/C13, 3.9"),
+    "C12": dict(
+        claimed=True,
+        text="TLC checks spec/Scheduler/Scheduler.tla exhaustively: the scheduler's heap modelled as the array the code keeps, with libstdc++'s "
+             "push_heap/pop_heap reproduced move by move and get_expired_lk/remove as operators with bound-checked indexing. Manual mode covers all "
+             "unbounded histories of sleep_until/get_expired/remove/cancel(id)/cancel(id,e)/~scheduler and interval()+stop token over small sets of "
+             "time points (ties, past values) and identifiers (reuse, nullptr). Single-thread start(awaitable) mode runs under a virtual clock: "
+             "worker coroutine, coro_queue FIFO, wait_until, with lazily chosen coroutine programs. Properties: NeverEarly, DeadlineOrder, "
+             "ExactlyOncePerSleep, PromptManual/PromptWhenIdle (woken exactly at the time point in virtual time), CancelHitsOne, "
+             "CancelFalseNoEffect, NotifyWhenEarliest, DestroyCancelsPending, HeapWellFormed, NoCrash (asserted index bounds), NoHang, "
+             "ReturnsWhenFinished, StartTerminates. Every edge of every state graph, including calls without effect, is replayed on the real "
+             "cocls::scheduler, comparing the array order, every call's return value, the identity and outcome of each completed sleep, "
+             "exactly-once resumption of awaiting coroutines, virtual wake-up times and the ready-queue order, with bound-checked std::vector; "
+             "self-deadlock and untimed waits are detected through interposed pthread functions.",
+        note="bounds: <=3 time points, <=3 identifiers, <=3-5 concurrently pending sleeps, array <=3-6 (histories unbounded); start mode 2-3 coroutines x "
+             "<=4-6 commands; THREAD / THREAD-POOL MODE IS NOT COVERED (DESIGN 9.5d open); TCB: TLC, tools/fastcover.py path cover, the replayer's "
+             "projection/audit and its clock/pthread interposition, libstdc++-12 heap algorithms as modelled (a mismatch would diverge)",
+        design_ref="6/C12, 3.8, 9.5"),
+    "C15": dict(
+        claimed=True,
+        text="TLC checks spec/Signal/Signal.tla (call grain: the four collector call forms, held/discarded/awaited suspend point on a normal thread "
+             "and inside a coroutine, coroutine listeners that re-await in a loop or on demand, connect() callbacks returning true/false, handle "
+             "copies and destruction) for AllWaitingGetIt, OncePerEmit, ReAwaitMissesNone, NoDanglingRead, DisconnectWakesAll, "
+             "AwaitDisconnectedFails and CallbacksFreed under the documented discipline, and the count/ordering properties for all histories. "
+             "SignalConc.tla (atomic-operation grain on state::_chain: exchange, subscribe CAS iterations, temporary strong references, ~state on "
+             "whichever thread drops the last reference) is checked for all schedules of one collector thread and 1-3 arriving listener threads: "
+             "RaceGuarantee (a racing subscriber gets exactly this value or is in the chain for the next; never lost, never twice, no gap), "
+             "DisconnectWakesAll and Termination. Every edge of the dumped graphs (capped in quick) is replayed on the real signal<int>/"
+             "signal<void> - sequentially with scripted coroutines and callbacks, concurrently with real threads under the controlled scheduler - "
+             "comparing chain, value pointer/storage, use_count, suspend point and queue contents, per-listener received values and states, "
+             "callback ctor/dtor and allocation balance, and each thread's pending operation after every step.",
+        note="bounds: <=3 listeners, <=4 emits (sequential), 1 collector + <=3 listener threads + <=2 pre-subscribed, <=3 emits (concurrent), int/void; "
+             "delivery properties claimed only for the documented discipline (suspend point released and listeners run before the next call / last "
+             "drop); shared_ptr refcount and plain accesses are not scheduling points; weak CAS as strong; TCB: TLC, vsched, projection code, c15.py's edge cover",
+        design_ref="6/C15, 3.11"),
     "C18": dict(
         claimed=True,
         text="Adapters.tla models callback_await / callback_await_alloc, make_promise (heap and storage), discard, call_fn_future_awaiter and all "
